@@ -5,6 +5,7 @@
   suite's ghost-state monitors on the real code (see DESIGN §6 C04).
 -/
 import RaftWal.Proofs.WalRefine
+import RaftWal.Generated.Conc
 namespace RaftWal.C04
 open RaftWal
 
@@ -62,5 +63,10 @@ theorem truncations_refine_spec (cfg : WalCfg) (hcfg : cfg.newSegCodec = cfg.cod
     (h0 : Wal.init cfg = some w0) (ops : List Op) (hops : ∀ op ∈ ops, op.inRange) :
     w0.run ops = ({ first := 0, entries := [] } : Spec.SLog).run ops :=
   wal_refines_spec cfg hcfg w0 h0 ops hops
+
+/-- T1: files of a truncated range are closed and deleted by a finalizer that `mutateStateLocked` attaches only after
+    the meta commit succeeded and the new state is published — a truncation whose commit fails (or is cut by a
+    crash) deletes nothing -/
+theorem files_deleted_only_after_commit : Generated.finalizerAttachedAfterPublish = true := by decide
 
 end RaftWal.C04
